@@ -179,26 +179,55 @@ func (c *Ctx) visitsOwnEntry(mr mapRange) bool {
 	// merges submodules under name-keyed bookkeeping and is NOT order-insensitive (two defects hid
 	// behind this idiom before the condition below was added). So an earlier loop in the same function
 	// must convert every element of the same map in sorted order.
+	suffix := AccessPath(mr.rng.X)
+	if k := strings.LastIndex(suffix, "."); k >= 0 {
+		suffix = suffix[k:]
+	}
+	if c.cacheWarmAt(mr.fn, mr.rng.Block(), suffix, func(b *ssa.BasicBlock) bool { return mr.inBody(b) }) {
+		return true
+	}
+	// the visit may live in a helper: then every call of the helper must come after the sorted conversion
+	node := c.Graph().Nodes[mr.fn]
+	if node == nil || len(node.In) == 0 {
+		return false
+	}
+	for _, e := range node.In {
+		if e.Site == nil || e.Site.Common().StaticCallee() != mr.fn {
+			return false
+		}
+		if !c.cacheWarmAt(e.Caller.Func, e.Site.Block(), suffix, func(*ssa.BasicBlock) bool { return false }) {
+			return false
+		}
+	}
+	return true
+}
+
+// cacheWarmAt: in fn, before block `at`, a loop ranges over the sorted values of the map whose access path
+// ends in mapSuffix and converts every element with ToEntry.
+func (c *Ctx) cacheWarmAt(fn *ssa.Function, at *ssa.BasicBlock, mapSuffix string, exclude func(*ssa.BasicBlock) bool) bool {
 	warmed := false
-	eachInstr(mr.fn, func(in ssa.Instruction) {
+	eachInstr(fn, func(in ssa.Instruction) {
 		call, isC := in.(*ssa.Call)
 		if !isC || !c.returnsSorted(call) || len(call.Call.Args) == 0 {
 			return
 		}
-		if AccessPath(call.Call.Args[0]) != AccessPath(mr.rng.X) {
+		if !strings.HasSuffix(AccessPath(call.Call.Args[0]), mapSuffix) {
 			return
 		}
-		// the sorted list is ranged over with ToEntry on its elements, before this loop
-		for _, b := range mr.fn.Blocks {
+		for _, b := range fn.Blocks {
+			if exclude(b) {
+				continue
+			}
 			for _, in2 := range b.Instrs {
 				ci, isCI := in2.(ssa.CallInstruction)
 				if !isCI || ci.Common().StaticCallee() == nil || c.FnName(ci.Common().StaticCallee()) != "yang.ToEntry" {
 					continue
 				}
-				if derivesFrom(ci.Common().Args[0], func(y ssa.Value) bool { return y == ssa.Value(call) }) && b.Dominates(mr.rng.Block()) == false && blockReaches(b, mr.rng.Block(), nil) && !mr.inBody(b) {
-					if lh := loopHeaderOf(b); lh != nil && lh.Dominates(mr.rng.Block()) {
-						warmed = true
-					}
+				if !derivesFrom(ci.Common().Args[0], func(y ssa.Value) bool { return y == ssa.Value(call) }) {
+					continue
+				}
+				if lh := loopHeaderOf(b); lh != nil && lh.Dominates(at) && !blockReaches(at, b, nil) {
+					warmed = true
 				}
 			}
 		}
